@@ -2,7 +2,7 @@
    relies on) on the same inputs as the implementation and compare bit for bit.
    Modes are signed (Z) as in Python; tensors of the generated cases carry the labels 0..n-1. *)
 From Coq Require Import List Arith ZArith Bool Uint63.
-From TLV Require Import Base.Shape Base.PyList Base.Tensor Model.Base Model.BaseExt Model.BasePy Model.BasePyCore Corr.Common.
+From TLV Require Import Base.Shape Base.PyList Base.Tensor Model.Base Model.BaseExt Model.BasePy Model.BasePyCore Model.BasePyNp Corr.Common.
 Import ListNotations.
 
 (* Case literals: tensor data are packed, w bits per entry and 60/w entries per primitive 63-bit
@@ -39,7 +39,10 @@ Inductive op :=
 | OPVecZ (sb se : Z) | OPUnvecZ (s : list nat) (sb se : Z)
 (* NumPy primitives as dispatched by the backend, validating Base/Tensor.v; OMoveG is the generic
    Backend.moveaxis of tensorly/backend/core.py *)
-| OMove (a b : Z) | OMoveG (a b : Z) | OTrans (p : list nat) | OReshape (spec : list (option nat)).
+| OMove (a b : Z) | OMoveG (a b : Z) | OTrans (p : list nat) | OReshape (spec : list (option nat))
+(* the argument forms of the backend calls (Model/BasePyNp.v): tl.reshape with an int or a sequence of signed ints,
+   tl.transpose with signed axes or None, tl.shape (returned as a 1-D array) and tl.ndim (as a 0-d array) *)
+| OReshapeA (a : shape_arg) | OTransOpt (axes : option (list Z)) | OShape | ONdim.
 
 Definition aslist (x : pyseq) : list Z := match x with PInt z => [z] | PSeq l => l end.
 (* the hand model of Model/Base.v / BaseExt.v (None: the request is outside its argument types) *)
@@ -59,6 +62,7 @@ Definition run (o : op) (t : tensor Z) : option (res (tensor Z)) :=
   | OTrans p => Some (if is_permb (ndim t) p then Ok (transpose 0%Z p t) else Err)
   | OReshape spec => Some (reshape_spec spec t)
   | OPUnfoldZ _ _ _ _ | OPFoldZ _ _ _ _ | OPVecZ _ _ | OPUnvecZ _ _ _ => None
+  | OReshapeA _ | OTransOpt _ | OShape | ONdim => None
   end.
 
 (* The same request on the statement-by-statement model of Model/BasePy.v (what the ast translator regenerates from the
@@ -85,6 +89,10 @@ Definition run_g (o : op) (a : ndarray Z Z) : option (res (ndarray Z Z)) :=
   | OMoveG x y => Some (g_moveaxis_generic TB a x y)
   | OTrans p => Some (b_transpose TB a (map Z.of_nat p))
   | OReshape spec => Some (b_reshape TB a (zspec spec))
+  | OReshapeA s => Some (np_reshape_typed 0%Z a s)
+  | OTransOpt axes => Some (np_transpose_opt_typed 0%Z a axes)
+  | OShape => Some (Ok (mkarr (dt a) (mk [length (shape (arr a))] (np_shape 0%Z (arr a)))))
+  | ONdim => Some (Ok (mkarr (dt a) (mk [] [np_ndim 0%Z (arr a)])))
   end.
 Definition arr_eqb (a b : ndarray Z Z) : bool := Z.eqb (dt a) (dt b) && zt_eqb (arr a) (arr b).
 
